@@ -85,14 +85,24 @@ func cmdFunc(eng *Engine, pats []string, keep, verbose bool) int {
 		}
 	}
 	sort.Slice(fcs, func(i, j int) bool { return fcs[i].Key < fcs[j].Key })
+	var lemmas []*AxiomDef
+	for _, ax := range eng.cs.Axioms {
+		for _, p := range pats {
+			if ax.Lemma && (p == "all" || strings.Contains(ax.Name, p)) {
+				lemmas = append(lemmas, ax)
+				break
+			}
+		}
+	}
 	dir := workDir()
 	if !keep {
 		defer os.RemoveAll(dir)
 	} else {
 		fmt.Fprintln(os.Stderr, "SMT files in", dir)
 	}
+	eng.known = loadKnownFindings(eng.verif)
 	stats := NewSolveStats()
-	results := verifyAll(eng, fcs, nil, dir, 3000, 10000, stats, keep)
+	results := verifyAll(eng, fcs, lemmas, dir, 3000, 10000, stats, keep)
 	bad := 0
 	for _, r := range results {
 		if r.Trusted {
